@@ -4,22 +4,49 @@ package engines
 
 import (
 	libaudit "github.com/elastic/go-libaudit/v2"
+	"github.com/elastic/go-libaudit/v2/aucoalesce"
 )
 
 // HooksEnabled reports whether the library was built with the verif tag.
 const HooksEnabled = true
 
 func init() {
-	libaudit.VerifYield = func(point string) {
+	hook := func(point string) {
 		if sc := getActiveSched(); sc != nil {
+			if len(point) > 3 && point[:3] == "in:" && !getInnerYields() {
+				return // pre-emption inside critical sections is a per-run knob
+			}
+			if point == "in:cache-before-store" {
+				// Only reached on a cache miss. ResolveIDs walks a Go map, so
+				// which lookup misses first is not controllable; yielding
+				// here would make the number of scheduling points of an
+				// operation depend on map iteration order. The point taken
+				// on every lookup ("in:cache-locked") is enough.
+				return
+			}
 			if t := sc.Me(); t != nil {
+				if point == "in:cache-locked" {
+					// ResolveIDs looks up the two actor ids first, in a fixed
+					// order, and then walks a Go map. Only the first two
+					// lookups of an operation are pre-emptible, so that the
+					// schedule does not depend on map iteration order.
+					if t.Local >= 2 {
+						return
+					}
+					t.Local++
+				}
 				t.Yield(point)
 			}
 		}
 	}
+	libaudit.VerifYield = hook
+	aucoalesce.VerifYield = hook
 }
 
 // newRealNetlink builds the real NetlinkClient on top of the simulated socket.
 func newRealNetlink(sock *simSocket, pid uint32, buf []byte) *libaudit.NetlinkClient {
 	return libaudit.NewVerifNetlinkClient(sock, pid, buf, nil)
 }
+
+// resetCoalesceGlobals gives every run fresh package-level ID caches.
+func resetCoalesceGlobals() { aucoalesce.VerifResetCaches() }
